@@ -96,7 +96,13 @@ func (cbm *callbackMgr[T]) runCBs(ctx context.Context) {
 			// add this callback to the set of callbacks
 			newCfgCBs = append(newCfgCBs, e.handle)
 		case *userCallbackUnregister[T]:
-			removed := make([]*userCallbackHandle[T], 0, len(newCfgCBs)-1)
+			// the handle may already be gone (e.g. its unregister func was called
+			// twice), so don't assume that there's at least one element.
+			removedCap := len(newCfgCBs) - 1
+			if removedCap < 0 {
+				removedCap = 0
+			}
+			removed := make([]*userCallbackHandle[T], 0, removedCap)
 			for _, cb := range newCfgCBs {
 				if e.handle == cb {
 					// don't add the one we're removing to the new list
